@@ -245,6 +245,35 @@ def check_clear_state(program, rep):
               line=cl.node.lineno)
 
 
+def check_owners(program, rep):
+    """The listener tables are read only by the dispatcher: code elsewhere
+    that walks them bypasses the dead-receiver test of dispatch()."""
+    disp = evrules.dispatcher_class(program)
+    inside = {id(m) for c in [disp] + program.subclasses(disp)
+              for m in c.methods.values()}
+    names = {evrules.EVENTS.split('.')[-1], evrules.HANDLERS.split('.')[-1]}
+    n = 0
+    bad = None
+    for f in program.all_functions():
+        for a in ast.walk(f.node):
+            if isinstance(a, ast.Attribute) and a.attr in names:
+                n += 1
+                if id(f) not in inside and bad is None:
+                    bad = (f, a)
+    rep.check(bad is None, 'C10.owners', bad[0].where if bad else
+              f'{disp.module.relpath}:EventDispatcher',
+              bad[1] if bad else 'self._events / self._handlers',
+              f'the listener tables are touched by dispatcher methods only '
+              f'({n} accesses)',
+              (f'{bad[0].qualname} reads the listener table of a dispatcher '
+               'directly: deliveries made from it do not go through '
+               'dispatch() and its dead-receiver test - a handler whose '
+               'owner was removed by an earlier callback is called with '
+               'self=None') if bad else '',
+              line=bad[1].lineno if bad else None)
+    rep.floor('C10.owners', 'accesses of the listener tables', n, 4)
+
+
 def check_inline_deref(program, rep):
     """No weak reference is dereferenced straight into a call anywhere in the
     dispatcher (fast paths outside the listener loops included)."""
@@ -280,6 +309,15 @@ def check_inline_deref(program, rep):
 
 def run(program, rep, tier):
     check_clear_state(program, rep)
+    check_owners(program, rep)
+    # a queued event holds its arguments (components) strongly: it must leave
+    # the queue before it is delivered (C04's release rule)
+    from rules import c04
+    rep.borrow(c04.check_release, program, rep,
+               keep=lambda o: o.rule == 'C04.release',
+               rename=lambda r: 'C10.released',
+               why='a delivered event stays in the queue and keeps the '
+               'objects it carries alive during the following callbacks')
     check_inline_deref(program, rep)
     check_no_strong(program, rep)
     check_cleanup(program, rep)
